@@ -1103,6 +1103,9 @@ func (s *c09State) rtOf(code string) string {
 // ---------- compiled-Go batch ----------
 
 func c09prepare(ops []string) {
+	if os.Getenv("C09_GENONLY") != "" {
+		return
+	}
 	// the interpreter allocates a lot; on a loaded machine GC threads dominate
 	runtime.GOMAXPROCS(4)
 	debug.SetGCPercent(400)
@@ -1653,6 +1656,9 @@ func init() {
 var c09declSig string
 
 func c09execSig(op string) Result {
+	if os.Getenv("C09_GENONLY") != "" { // debugging aid: only write ops.txt
+		return Result{Out: "-"}
+	}
 	if strings.HasPrefix(op, "decl ") {
 		c09declSig = op
 	}
